@@ -429,6 +429,11 @@ class Parser:
                 tok = copy.copy(tok)
                 tok.pos = cur_pos
                 tok.pos_fix = True
+                if type(tok) is defs.SpaceToken and '\n' in tok.txt:
+                    # as in TeX, a line break in the macro body is a blank;
+                    # together with a line break behind the macro call, it
+                    # would otherwise create a paragraph break
+                    tok.txt = ' '
                 out.append(tok)
         return out
 
